@@ -5,6 +5,7 @@ import (
 	"encoding/xml"
 	"errors"
 	"fmt"
+	"io"
 	"net/http"
 	"strings"
 	"sync"
@@ -168,7 +169,7 @@ func c09Requests(p *Program, t *T) []c09Req {
 }
 
 func runC09(e *Env) {
-	e.Rule = "registration programs (as C04) whose handlers are armed by request headers: the panicking request designates one handler (any global/group/route middleware, main handler, custom NotFound/NotAllowed handler; before or after its Next()) or the OnError handler, a panic value (string, error, int, struct) and an action before the panic (nothing, SetStatus, body write = committed, AddError); OnPanic hook absent / does nothing / status only / status+body / echoes the recovered value; history = healthy requests, the panicking one, an overlapping pair (a second request served by the same router while the first is parked inside a handler) and 3..10 further requests of all kinds on the same router (same pooled contexts). Oracle: hook present => no escape, hook ran once with the same value under CTXRecoverResult, no handler entered after the panic, writer log == C08 state machine over (ops before the panic, hook ops, end of request); hook absent => the same value propagates; always: every later request's outcome equals the outcome on a freshly built twin router. Also the in-chain recover middleware pkg/handlers.PanicsHandler: no escape, 500, healthy afterwards. Non-trivial: every history (each contains a panic); distinct by (program, plan). A third of the hooks serve another request on the same router before they answer (it must get its own context and behave as on a twin); a quarter of the panicking requests carry a cancelled or expired request context. More than half of the routers have an OnError handler that answers with an error page (after a panic it must not run, whatever errors were collected before). A quarter of the routers put a middleware in front that replaces c.Resp by a pass-through writer and restores it after Next() without defer (the panic skips the restore; the next request on that context must not notice). Part behind-request-logger: pkg/handlers.ConsoleLogger first and a panic on one of its ignored paths (/health, /status): the logger must not act as a recovery middleware. Part panic-inside-a-render-helper: the value handed to c.JSON/JSONP/XML has an encoder that panics; the following responses of the same helper are unchanged. The hook keeps c.Data() and c.Copy() of the panicking request; after the history both still hold the recovered value. Part hook-status-sources: (a) a buffering middleware (status and body kept back in its own writer, handed on after Next() - which the panic skips) is in front and the hook answers with c.SetStatus(code) only: the committed status is the hook's; (b) a handler records a status outside 100..999 and writes, the underlying writer refuses the code by a panic as net/http does, the hook does not set a status: the panic still ends at the hook, once; follow-up requests unchanged in both."
+	e.Rule = "registration programs (as C04) whose handlers are armed by request headers: the panicking request designates one handler (any global/group/route middleware, main handler, custom NotFound/NotAllowed handler; before or after its Next()) or the OnError handler, a panic value (string, error, int, struct) and an action before the panic (nothing, SetStatus, body write = committed, AddError); OnPanic hook absent / does nothing / status only / status+body / echoes the recovered value; history = healthy requests, the panicking one, an overlapping pair (a second request served by the same router while the first is parked inside a handler) and 3..10 further requests of all kinds on the same router (same pooled contexts). Oracle: hook present => no escape, hook ran once with the same value under CTXRecoverResult, no handler entered after the panic, writer log == C08 state machine over (ops before the panic, hook ops, end of request); hook absent => the same value propagates; always: every later request's outcome equals the outcome on a freshly built twin router. Also the in-chain recover middleware pkg/handlers.PanicsHandler: no escape, 500, healthy afterwards. Non-trivial: every history (each contains a panic); distinct by (program, plan). A third of the hooks serve another request on the same router before they answer (it must get its own context and behave as on a twin); a quarter of the panicking requests carry a cancelled or expired request context. More than half of the routers have an OnError handler that answers with an error page (after a panic it must not run, whatever errors were collected before). A quarter of the routers put a middleware in front that replaces c.Resp by a pass-through writer and restores it after Next() without defer (the panic skips the restore; the next request on that context must not notice). Part behind-request-logger: pkg/handlers.ConsoleLogger first and a panic on one of its ignored paths (/health, /status): the logger must not act as a recovery middleware. Part panic-inside-a-render-helper: the value handed to c.JSON/JSONP/XML has an encoder that panics, or the router's Renderer panics half way through a page rendered with c.Render; the following responses of the same helper are unchanged. The hook keeps c.Data() and c.Copy() of the panicking request; after the history both still hold the recovered value. Part hook-status-sources: (a) a buffering middleware (status and body kept back in its own writer, handed on after Next() - which the panic skips) is in front and the hook answers with c.SetStatus(code) only: the committed status is the hook's; (b) a handler records a status outside 100..999 and writes, the underlying writer refuses the code by a panic as net/http does, the hook does not set a status: the panic still ends at the hook, once; follow-up requests unchanged in both."
 	e.Assumptions = []string{
 		"panic values are comparable (==)",
 		"the statement's 'no later handler runs' is checked for the OnPanic hook only; PanicsHandler lets the outer loop continue by design and is only checked for containment, status and router health",
@@ -344,7 +345,7 @@ type c09Doc struct {
 // value. Hook or not, the requests that follow answer exactly as before the panic.
 func c09RenderPanic(t *T) {
 	r := t.R
-	helper := pick(r, []string{"JSONP", "XML", "JSON"})
+	helper := pick(r, []string{"JSONP", "XML", "JSON", "Render"})
 	hook := chance(r, 2, 3)
 	t.Describe(func() any { return map[string]any{"helper": helper, "OnPanic_hook": hook} })
 	t.AutoSample()
@@ -355,8 +356,12 @@ func c09RenderPanic(t *T) {
 			c.SetStatus(500)
 		}
 	}
+	router.Renderer = c09PageRenderer{}
 	render := func(c *rux.Context, v any) {
 		switch helper {
+		case "Render":
+			// the router's template renderer; for the exploding value a template function panics mid page
+			_ = c.Render(200, "page", v)
 		case "JSONP":
 			c.JSONP(200, "cb", v)
 		case "XML":
@@ -392,6 +397,19 @@ func c09RenderPanic(t *T) {
 		}
 	}
 	t.NonTrivial(fmt.Sprint(helper, hook))
+}
+
+// c09PageRenderer is the application's template engine: it panics half way through the page when
+// the data is a c09Exploding value (a template function that panics).
+type c09PageRenderer struct{}
+
+func (c09PageRenderer) Render(w io.Writer, name string, data any, c *rux.Context) error {
+	_, _ = io.WriteString(w, "<h1>"+name+"</h1>")
+	if _, bad := data.(c09Exploding); bad {
+		panic("template function failed")
+	}
+	_, _ = io.WriteString(w, fmt.Sprintf("<p>%v</p>", data))
+	return nil
 }
 
 // c09HookStatus: where the status of the hook's answer comes from and goes to.
